@@ -8,6 +8,8 @@ From Coq Require Import Reals List Lra.
 From Coquelicot Require Import Coquelicot.
 From OSU.Model Require Import Dispersion.
 From OSU.Proofs Require Import Dispersion.
+From OSU.Generated Require Import DispersionSrc.
+From OSU.Proofs Require Import DispersionGen.
 Import ListNotations.
 Open Scope R_scope.
 
@@ -111,6 +113,54 @@ Theorem spectrum_wavenumber_is_solver : forall g fs ds,
   spec_wavenumber g fs ds = kinv_batch g (1 / 1000) 10
     (flat_map (fun d => map (fun f => (f * 2 * PI, norm_depth d)) fs) ds).
 Proof. reflexivity. Qed.
+
+(* ---- the tie to the source.  coq/Generated/DispersionSrc.v is regenerated from
+   wavetheory/lineardispersion.py on every run (harness/translate_pointwise.py, fail-closed); the next
+   theorems say that what the source computes for finite depth IS the model the theorems above are about,
+   and restate the central ones directly on the regenerated definitions. *)
+Theorem source_formulas_are_the_model : forall k d g,
+  intrinsic_dispersion_relation k d g = omega g k (Depth d) /\
+  phase_velocity k d g = phase g k (Depth d) /\
+  ratio_group_velocity_to_phase_velocity k d g = n_ratio k (Depth d) /\
+  intrinsic_group_velocity k d g = cg g k (Depth d) /\
+  jacobian_wavenumber_to_radial_frequency k d g = 1 / cg g k (Depth d) /\
+  jacobian_radial_frequency_to_wavenumber k d g = cg g k (Depth d).
+Proof.
+  intros k d g.
+  exact (conj (src_omega k d g) (conj (src_phase k d g) (conj (src_ratio k d g) (conj (src_cg k d g) (src_jacobians k d g))))).
+Qed.
+
+Theorem source_solver_pieces_are_the_model : forall w d g n tol k,
+  inverse_intrinsic_dispersion_relation_pre w d g n tol = st_of g w d (guess g w (Depth d)) /\
+  inverse_intrinsic_dispersion_relation_body w d g n tol (st_of g w d k) =
+    (st_of g w d (nstep g w (Depth d) k), conv g tol w (Depth d) (nstep g w (Depth d) k)) /\
+  inverse_intrinsic_dispersion_relation_result (st_of g w d k) = k.
+Proof. intros w d g n tol k. exact (conj (src_pre w d g n tol) (conj (src_body w d g n tol k) (src_result g w d k))). Qed.
+
+Theorem source_solver_defaults :
+  inverse_intrinsic_dispersion_relation_default_maximum_number_of_iterations = fuel_default /\
+  inverse_intrinsic_dispersion_relation_default_tolerance_R = tol_default.
+Proof. exact src_defaults. Qed.
+
+(* the loop assembled from the regenerated pieces is the model's solver, for every batch of finite depths *)
+Theorem source_solver_is_the_model : forall g tol fuel ps,
+  src_kinv_batch g tol fuel ps = kinv_batch g tol fuel (finite ps).
+Proof. exact src_kinv_batch_is_model. Qed.
+
+Theorem source_exit_tolerance : forall g tol fuel ps ks,
+  src_kinv_batch g tol fuel ps = (true, ks) ->
+  List.Forall2 (fun p k => Rabs (intrinsic_dispersion_relation k (snd p) g - fst p) / fst p < tol) ps ks.
+Proof. exact src_exit_tolerance. Qed.
+
+Theorem source_cg_is_derivative : forall g k d, 0 < g -> 0 < k -> 0 < d ->
+  exists D, is_derive (fun k : R => intrinsic_dispersion_relation k d g) k D /\ 0 < D /\
+            Rabs (intrinsic_group_velocity k d g - D) <= 1 / 1000 * D /\
+            (k * d <= 5 -> intrinsic_group_velocity k d g = D).
+Proof. exact src_cg_is_derivative. Qed.
+
+Theorem source_ratio_range : forall k d g, 0 < k -> 0 < d ->
+  1 / 2 <= ratio_group_velocity_to_phase_velocity k d g <= 1.
+Proof. exact src_ratio_range. Qed.
 
 (* non-vacuity *)
 Example depth_ok_examples : depth_ok Deep /\ depth_ok (Depth 10) /\ finite_pt (1, Depth 10).
